@@ -403,6 +403,7 @@ def make_units(name, iset):
     if kind in ('push', 'pop'):
         props = props + ['C02']         # the single-register encodings of PUSH / POP (A2, T3) are STR / LDR (immediate) encodings
     also = {'C14': ['inv.abort']}           # C14: a denied access at any position of a multi-word transfer - no write-back, no later transfer
+    also['C10'] = ['inv.step', 'post']      # C10: which bank every transferred / written-back register lives in (user-bank forms from FIQ mode, SP of the current mode)
     return [Unit('C03/exec:%s[%s]/head' % (name, iset), props, head, nreplay, dict(opts), meta={'function': qn, 'inductive': True, 'also': also}),
             Unit('C03/exec:%s[%s]/step' % (name, iset), props, stepu, nreplay, dict(opts), meta={'function': qn, 'inductive': True, 'also': also}),
             Unit('C03/exec:%s[%s]/tail' % (name, iset), props, tail, nreplay, dict(opts), meta={'function': qn, 'inductive': True, 'also': also})]
